@@ -10,24 +10,41 @@ import (
 	"fmt"
 	"reflect"
 	"sync"
+	"sync/atomic"
+
+	"verif/sim/vsched"
 )
 
 type Pool struct {
 	New   func() any
 	mu    sync.Mutex
-	items []any
+	items []item
+}
+
+// item: a pooled object and the happens-before edge sync.Pool promises for it
+// (a Put of x is ordered before the Get that returns x, and before nothing
+// else): hb is released by Put and acquired by that Get. The pool's own lock
+// is taken in harness context, where the race detector sees nothing: it would
+// order every user of the pool with every other.
+type item struct {
+	v  any
+	hb *int32
 }
 
 func (p *Pool) Get() any {
+	old := vsched.EnterHarness()
 	p.mu.Lock()
 	if n := len(p.items); n > 0 {
 		x := p.items[n-1]
-		p.items[n-1] = nil
+		p.items[n-1] = item{}
 		p.items = p.items[:n-1]
 		p.mu.Unlock()
-		return x
+		vsched.Restore(old)
+		atomic.LoadInt32(x.hb)
+		return x.v
 	}
 	p.mu.Unlock()
+	vsched.Restore(old)
 	if p.New != nil {
 		return p.New()
 	}
@@ -54,9 +71,13 @@ func (p *Pool) Put(x any) {
 	if x == nil {
 		return
 	}
+	hb := new(int32)
+	atomic.StoreInt32(hb, 1)
+	defer vsched.Restore(vsched.EnterHarness())
 	p.mu.Lock()
 	if v := reflect.ValueOf(x); v.Kind() == reflect.Ptr {
-		for _, y := range p.items {
+		for _, it := range p.items {
+			y := it.v
 			if w := reflect.ValueOf(y); w.Kind() == reflect.Ptr && w.Pointer() == v.Pointer() {
 				dpMu.Lock()
 				DoublePuts++
@@ -69,7 +90,7 @@ func (p *Pool) Put(x any) {
 		}
 	}
 	if len(p.items) < 4096 {
-		p.items = append(p.items, x)
+		p.items = append(p.items, item{x, hb})
 	}
 	p.mu.Unlock()
 }
